@@ -60,17 +60,17 @@ Proof. exact nsleak_refuted. Qed.
 (* names: _GD_BuildCode computes the Standards' reading of a name or code
    outside the two recorded corners (one-letter r/i/m/a names qualified by a
    namespace; namespace-qualified INDEX) *)
-Theorem build_code_agrees : forall is_name fns px sx cur code nons,
-  (nons = true \/ (index_like code = false /\ (is_name = true -> repr_like (undot code) = false))) ->
-  build_code fns px sx cur code nons = spec_code is_name fns px sx cur code nons.
+Theorem build_code_agrees : forall is_name fns px sx cur code nons z,
+  (nons = true \/ (index_like z code = false /\ (is_name = true -> z = false /\ repr_like (undot code) = false))) ->
+  build_code fns px sx cur code nons z = spec_code is_name fns px sx cur code nons z.
 Proof. exact NamesProofs.build_code_agrees. Qed.
 
 Theorem build_code_repr_refuted :
-  build_code [] [80] [83] [] [120; 46; 114] false <> spec_code true [] [80] [83] [] [120; 46; 114] false.
+  build_code [] [80] [83] [] [120; 46; 114] false false <> spec_code true [] [80] [83] [] [120; 46; 114] false false.
 Proof. exact Main.build_code_repr_refuted. Qed.
 
 Theorem build_code_index_refuted :
-  build_code [] [] [] [] [120; 46; 73; 78; 68; 69; 88] false <> spec_code true [] [] [] [] [120; 46; 73; 78; 68; 69; 88] false.
+  build_code [] [] [] [] [120; 46; 73; 78; 68; 69; 88] false false <> spec_code true [] [] [] [] [120; 46; 73; 78; 68; 69; 88] false false.
 Proof. exact Main.build_code_index_refuted. Qed.
 
 (* affix_nesting: the deepest inclusion is innermost, in the code and in the
